@@ -259,3 +259,60 @@ def run(repo: Repo, rep: Report, tier: str) -> None:
     N_ = "self.networks_red if wire_color == 'red' else self.networks_green"
     rep.check(bool(ret) and canon(rn).text(ret[0].value) in (f"len({N_}) == 0 or network_id in ({N_})", f"not ({N_}) or network_id in ({N_})"), "C08-R6",
               "a relay carries a network only if the colour is free or already carries it", norm(ret[0].value) if ret else "", rn.loc())
+
+    # ---------------- R7 ---------------------------------------------------------------
+    rep.rule("C08-R7", "relay poles are placed against the final occupancy: in plan_layout every path from a step that moves, adds or removes placements (position optimisation, pole "
+             "trimming, entity creation) to connection planning rebuilds the tile grid — by a direct rebuild, or in a callee that rebuilds on every one of its paths")
+    lp7 = repo.cls("LayoutPlanner")
+    pl7 = lp7.methods["plan_layout"]
+    from ..cfg import ENTRY as ENTRY_
+
+    def _self_calls(node):
+        return {call_name(c) for c in calls_in(node) if isinstance(c.func, ast.Attribute) and isinstance(c.func.value, ast.Name) and c.func.value.id == "self"}
+
+    def _rebuilds_directly(st):
+        return any(call_name(c) == "rebuild_from_placements" for c in calls_in(st))
+
+    def _must_rebuild(mname, depth=0):
+        m = lp7.methods.get(mname)
+        if m is None or depth > 2:
+            return False
+        g = CFG(m.node)
+        blockers = [s for s in g.stmts() if not isinstance(s, (ast.If, ast.For, ast.While, ast.Try, ast.With)) and
+                    (_rebuilds_directly(s) or any(_must_rebuild(k, depth + 1) for k in _self_calls(s)))]
+        if not blockers:
+            return False
+        return not g.reaches_avoiding(ENTRY_, {id(EXIT_)}, lambda n: any(n is b for b in blockers), start_inclusive=False)
+
+    def _mutates(mname, depth=0):
+        m = lp7.methods.get(mname)
+        if m is None or depth > 2:
+            return False
+        for x in walk_local(m.node):
+            if isinstance(x, ast.Assign) and any(isinstance(t, ast.Attribute) and t.attr == "position" for t in x.targets):
+                return True
+            if isinstance(x, ast.Delete) and any("entity_placements" in norm(t) for t in x.targets):
+                return True
+            if isinstance(x, ast.Call) and call_name(x) in ("create_and_add_placement", "add_placement", "place_ir_operation", "place_power_poles", "add_power_pole_grid"):
+                return True
+        return any(_mutates(k, depth + 1) for k in _self_calls(m.node))
+
+    g7 = CFG(pl7.node)
+    simple7 = [s for s in g7.stmts() if not isinstance(s, (ast.If, ast.For, ast.While, ast.Try, ast.With))]
+    plans7 = [s for s in simple7 if "_plan_connections" in _self_calls(s)]
+    muts7 = [s for s in simple7 if any(_mutates(k) for k in _self_calls(s)) and s not in plans7]
+    if not plans7 or len(muts7) < 2:
+        raise AnalysisError(f"C08-R7: plan_layout anchors not found (connection planning calls: {len(plans7)}, placement-changing steps: {len(muts7)})")
+    def _is_rebuild7(n):
+        return isinstance(n, ast.stmt) and not isinstance(n, (ast.If, ast.For, ast.While, ast.Try, ast.With)) and (
+            _rebuilds_directly(n) or any(_must_rebuild(k) for k in _self_calls(n)))
+    rep.analysed["C08-R7:placement-changing steps of plan_layout"] = sorted({k for s in muts7 for k in _self_calls(s) if _mutates(k)})
+    for s in muts7:
+        names = sorted(k for k in _self_calls(s) if _mutates(k))
+        # the step's own callee counts as a rebuild only when it rebuilds on every path (then the grid is fresh when it returns only if the rebuild comes last; a
+        # later mutating step is checked on its own)
+        stale = g7.reaches_avoiding(s, {id(p) for p in plans7}, _is_rebuild7, start_inclusive=False)
+        rep.check(not stale, "C08-R7", f"plan_layout: the tile grid is rebuilt between `{names[0]}` and connection planning",
+                  "every path passes a rebuild" if not stale else
+                  f"a path from `{names[0]}` reaches `_plan_connections` with the grid of an earlier stage (a callee that returns early does not count): relay poles are then "
+                  "placed on tiles that the optimised entities occupy", pl7.loc(s))
